@@ -39,7 +39,7 @@ def gen_case(rng):
     files = []
     for j in range(rng.choice([0, 0, 1, 1, 2, 3])):
         kind = rng.choice(['text', 'text', 'binary'])
-        how = rng.choice(['explicit', 'explicit', 'dir', 'glob'])
+        how = rng.choice(['explicit', 'explicit', 'dir', 'glob', 'sibling'])
         ext = {'text': rng.choice(['.txt', '.csv', '.log', '.json', '']), 'binary': rng.choice(['.bin', '.dat', '.png'])}[kind]
         name = 'out%d%s' % (j, ext)
         if kind == 'text':
@@ -54,6 +54,10 @@ def gen_case(rng):
         flags.append('--no-stdout')
     if rng.random() < 0.15:
         flags.append('--no-stderr')
+    if rng.random() < 0.15:
+        flags.append(rng.choice(['--no-clobber', '-C']))
+    if rng.random() < 0.12:
+        flags.append(rng.choice(['--relative-paths', '-r']))
     status = rng.choice([0, 0, 0, 1, 2, 7])
     if status != 0:
         flags.append('--non-zero-exit')
@@ -64,7 +68,10 @@ def gen_case(rng):
             'existing': rng.random() < 0.5, 'cmd_style': rng.choice(['cat', 'cat', 'printf'])}
 
 
-def target_of(fl):
+def target_of(fl, base='w'):
+    """path of the output relative to the working directory (whose base name is `base`)"""
+    if fl['how'] == 'sibling':
+        return '../%s-out/%s' % (base, fl['name'])
     if fl['how'] == 'dir':
         return 'outdir/' + fl['name']
     if fl['how'] == 'glob':
@@ -94,17 +101,19 @@ def build_dir(case, d):
         data = fl['content'].encode('utf-8') if fl['kind'] == 'text' else bytes.fromhex(fl['content'])
         with open(os.path.join(d, src), mode) as f:
             f.write(data)
+        target = target_of(fl, os.path.basename(d))
         if fl['how'] == 'dir':
             os.makedirs(os.path.join(d, 'outdir'), exist_ok=True)
-            target = 'outdir/' + fl['name']
             if 'outdir' not in refs:
                 refs.append('outdir')
         elif fl['how'] == 'glob':
-            target = 'g_' + fl['name']
             if 'g_*' not in refs:
                 refs.append('g_*')
+        elif fl['how'] == 'sibling':
+            # an output outside the working directory, in a directory whose name extends the working directory's
+            os.makedirs(os.path.join(d, os.path.dirname(target)), exist_ok=True)
+            refs.append(target if fl['name'].startswith('out0') else os.path.abspath(os.path.join(d, target)))
         else:
-            target = fl['name']
             refs.append(target)
         fl['target'] = target
         parts.append('if test -f %s; then cp %s %s; fi' % (src, src, target))
